@@ -30,7 +30,7 @@ package crl
 //@   requires c != nil && crlConfig != nil && crlConfig.CDPConfig != nil && logger != nil && norwlocks() && unheld(&workDirInUseMutex) && unheld(&crlUpdateMutex) && certsNonNil(crlConfig.TrustedSignatureCerts)
 //@   assigns L.held, crlrepository.Entry.CRLStore, crlrepository.Entry.Loaded, crlrepository.Entry.LastUpdateSignatureVerifyFailed, crlrepository.Entry.LastUpdateSignature, crlrepository.Entry.Chains, H.crlrepository.Repository.crlRepository, M.map[string]*crlrepository.Entry, crlstore.MapStore.Map, M.map[string][]uint8, crlstore.LevelDbStore.Db, H.crlloader.MultiSchemesCRLLoader, H.crlloader.URLLoader, H.crlloader.FileLoader, X.ldbhas, X.fs, X.net, X.retry, X.stream, X.spos, X.hacc, X.hkind, E.uint8, E.any, E.string, fresh:E.*core.CertificateChainEntry, fresh:E.core.CertificateChain, fresh:E.core.CertificateChainEntry, *c, M.map[string]int, G.crl.workDirsInUse, G.crl.lastCrlUpdateFinishTime, X.ticker
 //@   ensures[C03,C15] err == nil ==> checkerOK(c)
-//@   ensures[C04,C15,C16] configured_crls_loaded_before_return: err == nil ==> called(CRLRevocationChecker.addCrlUrlsFromConfig#1) && res(CRLRevocationChecker.addCrlUrlsFromConfig#1) == nil && called(CRLRevocationChecker.addCrlFilesFromConfig#1) && res(CRLRevocationChecker.addCrlFilesFromConfig#1) == nil
+//@   ensures[C04,C12,C15,C16] configured_crls_loaded_before_return: err == nil ==> called(CRLRevocationChecker.addCrlUrlsFromConfig#1) && res(CRLRevocationChecker.addCrlUrlsFromConfig#1) == nil && called(CRLRevocationChecker.addCrlFilesFromConfig#1) && res(CRLRevocationChecker.addCrlFilesFromConfig#1) == nil
 
 //@ func CRLRevocationChecker.Cleanup
 //@   props C20 C13
@@ -39,7 +39,7 @@ package crl
 //@   ensures[C20] stop_channel_closed: old(c.crlUpdateStop) != nil ==> called(close#1) && arg(close#1, 0) == old(c.crlUpdateStop)
 
 //@ func CRLRevocationChecker.addCrlUrlsFromConfig
-//@   props C15 C16 C19
+//@   props C12 C15 C16 C19
 //@   requires checkerOK(c) && norwlocks() && chains != nil && chainsOK(chains)
 //@   assigns L.held, crlrepository.Entry.CRLStore, crlrepository.Entry.Loaded, crlrepository.Entry.LastUpdateSignatureVerifyFailed, crlrepository.Entry.LastUpdateSignature, crlrepository.Entry.Chains, H.crlrepository.Repository.crlRepository, M.map[string]*crlrepository.Entry, crlstore.MapStore.Map, M.map[string][]uint8, crlstore.LevelDbStore.Db, H.crlloader.MultiSchemesCRLLoader, H.crlloader.URLLoader, H.crlloader.FileLoader, X.ldbhas, X.fs, X.net, X.retry, X.stream, X.spos, X.hacc, X.hkind, E.uint8, E.any, E.string, fresh:E.*core.CertificateChainEntry, fresh:E.core.CertificateChain, fresh:E.core.CertificateChainEntry
 //@   ensures checkerOK(c)
@@ -48,9 +48,9 @@ package crl
 //@   loop 1 invariant checkerOK(c)
 //@   loop 1 invariant norwlocks()
 //@   loop 1 invariant chainsOK(chains)
-//@   loop 1 iter_ensures[C04,C15,C16] configured_crl_is_added_and_refreshed: called(Repository.AddCRL#1) && res(Repository.AddCRL#1, 1) == nil && called(Repository.UpdateCRL#1) && res(Repository.UpdateCRL#1) == nil
+//@   loop 1 iter_ensures[C04,C12,C15,C16] configured_crl_is_added_and_refreshed: called(Repository.AddCRL#1) && res(Repository.AddCRL#1, 1) == nil && called(Repository.UpdateCRL#1) && res(Repository.UpdateCRL#1) == nil
 //@ func CRLRevocationChecker.addCrlFilesFromConfig
-//@   props C15 C16 C19
+//@   props C12 C15 C16 C19
 //@   requires checkerOK(c) && norwlocks() && chains != nil && chainsOK(chains)
 //@   assigns L.held, crlrepository.Entry.CRLStore, crlrepository.Entry.Loaded, crlrepository.Entry.LastUpdateSignatureVerifyFailed, crlrepository.Entry.LastUpdateSignature, crlrepository.Entry.Chains, H.crlrepository.Repository.crlRepository, M.map[string]*crlrepository.Entry, crlstore.MapStore.Map, M.map[string][]uint8, crlstore.LevelDbStore.Db, H.crlloader.MultiSchemesCRLLoader, H.crlloader.URLLoader, H.crlloader.FileLoader, X.ldbhas, X.fs, X.net, X.retry, X.stream, X.spos, X.hacc, X.hkind, E.uint8, E.any, E.string, fresh:E.*core.CertificateChainEntry, fresh:E.core.CertificateChain, fresh:E.core.CertificateChainEntry
 //@   ensures checkerOK(c)
@@ -59,7 +59,7 @@ package crl
 //@   loop 1 invariant checkerOK(c)
 //@   loop 1 invariant norwlocks()
 //@   loop 1 invariant chainsOK(chains)
-//@   loop 1 iter_ensures[C04,C15,C16] configured_crl_is_added_and_refreshed: called(Repository.AddCRL#1) && res(Repository.AddCRL#1, 1) == nil && called(Repository.UpdateCRL#1) && res(Repository.UpdateCRL#1) == nil
+//@   loop 1 iter_ensures[C04,C12,C15,C16] configured_crl_is_added_and_refreshed: called(Repository.AddCRL#1) && res(Repository.AddCRL#1, 1) == nil && called(Repository.UpdateCRL#1) && res(Repository.UpdateCRL#1) == nil
 
 //@ func CRLRevocationChecker.initCRLUpdateTicker
 //@   constructor
